@@ -94,4 +94,23 @@ def expected (c : Cell) : Outcome :=
     | .wrongName => .refused
     | .untrusted => .refused
 
+/-! ### any host, any certificate
+The table above is what the scenarios run; the glue itself is not specific to three addresses. A certificate is whatever the
+library sees of it: is its chain trusted, and which names does it carry. -/
+structure GCert where
+  trusted : Bool
+  names : List (List Char)
+
+def gLibAccepts (p : ClientParams) (cert : GCert) : Bool :=
+  p.acceptInvalid || (cert.trusted && cert.names.contains p.domain)
+
+/-- outcome for a client configured with `(useTls, verify)` and an arbitrary address, against a server with or without a TLS
+identity presenting an arbitrary certificate -/
+def gOutcome (useTls verify serverTls : Bool) (address : List Char) (cert : GCert) : Outcome :=
+  match useTls, serverTls with
+  | false, false => .plain
+  | false, true => .refused
+  | true, false => .refused
+  | true, true => if gLibAccepts ⟨useTls, !verify, hostOf address⟩ cert then .session else .refused
+
 end Dia.Tls
